@@ -1,0 +1,25 @@
+//go:build verif
+
+package nom
+
+// Contracts checked by /verif (gvc). This file contains comments only and is compiled only with -tags verif.
+
+// Previous() recurses into the first descendant block of a contract receive; for a block without descendants it is
+// (PreviousHash, Height-1).
+//@ func AccountBlock.Previous(ab)
+//@   requires ab != nil
+//@   ensures len(ab.DescendantBlocks) == 0 ==> result.Hash == ab.PreviousHash && result.Height == (ab.Height + pow2(64) - 1) % pow2(64)
+//@   modifies nothing
+
+// The account-block hash is SHA3-256 over the concatenation of the covered fields; the hash function itself stays
+// uninterpreted. abHashUF lists exactly the fields the pre-image is built from (see property C13); the descendant and data
+// digests enter through descHash/bytesval.
+//@ spec abHashUF(version int, chainId int, blockType int, prev arr, height int, maHash arr, maHeight int, address arr, toAddress arr, amount int, zts arr, from arr, desc int, data int, fused int, difficulty int, nonce arr) arr
+//@ spec descHash(blockId int) int
+//@ spec abHashOf(b *AccountBlock) arr = abHashUF(b.Version, b.ChainIdentifier, b.BlockType, b.PreviousHash, b.Height, b.MomentumAcknowledged.Hash, b.MomentumAcknowledged.Height, b.Address, b.ToAddress, val(b.Amount), b.TokenStandard, b.FromBlockHash, descHash(int(b)), bytesval(b.Data), b.FusedPlasma, b.Difficulty, b.Nonce.Data)
+
+//@ func AccountBlock.ComputeHash(ab)
+//@   trusted
+//@   requires ab != nil
+//@   ensures result == abHashOf(ab)
+//@   modifies nothing
